@@ -124,8 +124,30 @@ def emit_path():
         and guarded_before('mkdir', ['parent.mkdir(', 'fs.fat.free()', 'parent._index[self.name] = entry']) \
         and guarded_before('rmdir', ['del parent._index[self.name]']) \
         and guarded_before('rename', ['target._index[target.name] = source_entry', 'target.touch()'])
-    return [f'Definition fatpath_skips_dot_validation : bool := {coq_bool(skips)}.',
-            f'Definition fatpath_mutators_refuse_dot_names : bool := {coq_bool(sites)}.']
+    L = [f'Definition fatpath_skips_dot_validation : bool := {coq_bool(skips)}.',
+         f'Definition fatpath_mutators_refuse_dot_names : bool := {coq_bool(sites)}.']
+    # canonical forms (docstrings dropped) of the path operations that FatVol/Model.v follows by hand -- resolution, the five
+    # mutators and the creating branch of open: any edit of their logic breaks the cone of C04 (fail closed)
+    import hashlib
+    def canon(fn):
+        f = find_func(fp.body, fn)
+        body = [n for n in f.body if not (isinstance(n, ast.Expr) and isinstance(n.value, ast.Constant) and isinstance(n.value.value, str))]
+        return hashlib.sha256('\n'.join(ast.unparse(n) for n in body).encode()).hexdigest()[:16]
+    for fn in ('_resolve', '_from_entry', '_refresh', 'open', 'unlink', 'rename', 'mkdir', 'rmdir', 'touch', '_must_be_named', 'resolve'):
+        L.append(f'Definition canon_FatPath_{("priv_" + fn[1:]) if fn.startswith("_") else fn} : string := "{canon(fn)}"%string.')
+    L.append(f'Definition canon_get_parts : string := "{hashlib.sha256(ast.unparse(find_func(t.body, "get_parts")).encode()).hexdigest()[:16]}"%string.')
+    # sh.py reaches the partitions through the public path API only: no attribute starting with "_" of a path / file-system
+    # object, no fs.fat / fs.clusters / open_dir / open_entry (then a shell command is a history of path operations)
+    sh = parse('sh.py')
+    bad = []
+    for n in ast.walk(sh):
+        if isinstance(n, ast.Attribute):
+            if n.attr in ('fat', 'clusters', 'open_dir', 'open_entry', 'open_file', '_index', '_entry', '_fs', '_root', '_data'):
+                bad.append(n.attr)
+            elif n.attr.startswith('_') and not n.attr.startswith('__') and not (isinstance(n.value, ast.Name) and n.value.id in ('lang', 'self', 'config', 'sys')):
+                bad.append(n.attr)
+    L.append(f'Definition sh_uses_public_path_api_only : bool := {coq_bool(not bad)}.')
+    return L
 
 
 def emit_fs():
